@@ -144,6 +144,15 @@ def coroutine_body(envx, world):
     yield
 
 
+class FalsyWorld(desper.World):
+    """A legal World subclass that is falsy (e.g. __len__ = number of
+    something that happens to be zero): presence must be tested with
+    `is None`, never by truth."""
+
+    def __len__(self):
+        return 0
+
+
 class LabHandle(desper.WorldHandle):
     def __init__(self, envx, name):
         super().__init__()
@@ -151,6 +160,10 @@ class LabHandle(desper.WorldHandle):
         self.name = name
         self.count = 0
         self.transform_functions.append(self.populate)
+
+    def load(self):
+        self.envx.loading = self.name
+        return super().load()
 
     def populate(self, handle, world):
         envx = self.envx
@@ -192,6 +205,12 @@ def run_case(case):
     loop = desper.SimpleLoop(clock)
     old_default = desper.default_loop
     desper.default_loop = loop
+    import desper.model.world as model_world
+    old_world_class = model_world.World
+    envx.loading = None
+    # worlds of every handle but the first are falsy World subclasses
+    model_world.World = lambda: (desper.World() if envx.loading == names[0]
+                                 else FalsyWorld())
     try:
         if preload:
             for n in names:
@@ -211,6 +230,7 @@ def run_case(case):
                             exception=type(exc).__name__)
     finally:
         desper.default_loop = old_default
+        model_world.World = old_world_class
     return judge(case, envx)
 
 
@@ -415,6 +435,8 @@ def run(tier, rep):
     rep.rule = RULE
     rep.assumptions += [
         'the number of load() calls per request is free (reported only)',
+        'worlds of all handles but the first are falsy World subclasses '
+        '(WorldHandle.load is given that class through the module global)',
         'a world left through a bare raise SwitchWorld is not disabled: what '
         'happens to events dispatched into it is not constrained',
         'the `to` argument of on_switch_out is judged by its own clause '
